@@ -12,6 +12,9 @@ RULE = ("case = (frame 2..16 bytes; a forest of signals: static signals, a root 
         "nesting depth 1..3 (thorough: 4); shuffled signal order; built through the DBC reader (SG_ M/m<n>/m<n>M tags + SG_MUL_VAL_) "
         "or through the API for simple frames; payload random or steered along a random root-to-leaf path; for simple frames "
         "additionally an encode request: selector value (incl. unused ones) + a subset of all signals with in-range values). "
+        "Every decode/encode is observed on objects with a history: the first use of a frame is made with its signals somewhere else "
+        "(then moved into place by assignment), each call is repeated, and once more after another detour; an encode request is also "
+        "made with one values dict used for several selector values. A result that depends on that history is a failure. "
         "Non-trivial = distinct case with at least one bound signal.")
 PARTIAL = ["the DBC text -> bookkeeping step is modelled only for the multiplex indicators and SG_MUL_VAL_ (the full line model is C05's)",
            "encoding of extended-multiplexed frames raises EncodingComplexMultiplexed by design and is not part of the property"]
